@@ -40,7 +40,7 @@ def main(argv):
     mod = prop_module(prop)
     budget = mod.BUDGET[tier]
     total = budget["cases"]
-    wall = budget.get("wall_s", 600 if tier == "quick" else 3000)
+    wall = budget.get("wall_s", 3000 if tier == "quick" else 3600)  # generous watchdog: a loaded machine must not turn a verdict into "inconclusive"
     faulthandler.enable()
     faulthandler.dump_traceback_later(wall + 120, exit=True)
     from mon import contracts
